@@ -26,7 +26,7 @@ import (
 
 func init() { extraWriters = append(extraWriters, writeProtoFields) }
 
-func protoMsgOf(t types.Type) (string, *types.Struct) {
+func structOf(t types.Type, pkgSuffix string) (string, *types.Struct) {
 	for {
 		p, ok := t.(*types.Pointer)
 		if !ok {
@@ -35,7 +35,7 @@ func protoMsgOf(t types.Type) (string, *types.Struct) {
 		t = p.Elem()
 	}
 	n, ok := t.(*types.Named)
-	if !ok || n.Obj().Pkg() == nil || !strings.HasSuffix(n.Obj().Pkg().Path(), "proto/gen/go/acmelib/v1") {
+	if !ok || n.Obj().Pkg() == nil || !strings.HasSuffix(n.Obj().Pkg().Path(), pkgSuffix) {
 		return "", nil
 	}
 	st, ok := n.Underlying().(*types.Struct)
@@ -48,6 +48,15 @@ func protoMsgOf(t types.Type) (string, *types.Struct) {
 type pf struct{ msg, field string }
 
 func writeProtoFields(out string, root, dbc *packages.Package) {
+	writeFieldInventory(out, root, "proto/gen/go/acmelib/v1", "saver.go", "loader.go", "ProtoFields.lean",
+		"schemaFields", "savedFields", "loadedFields")
+	// C11 / C10: the DBC document the exporter builds and the importer reads
+	writeFieldInventory(out, root, "acmelib/dbc", "exporter.go", "importer.go", "DbcFields.lean",
+		"dbcAstFields", "exportedFields", "importedFields")
+}
+
+func writeFieldInventory(out string, root *packages.Package, pkgSuffix, writerFile, readerFile, outFile, schemaName, savedName, loadedName string) {
+	protoMsgOf := func(t types.Type) (string, *types.Struct) { return structOf(t, pkgSuffix) }
 	info := root.TypesInfo
 	saved := map[pf]bool{}
 	loaded := map[pf]bool{}
@@ -56,12 +65,12 @@ func writeProtoFields(out string, root, dbc *packages.Package) {
 	// the schema package, through the types the two files use
 	var protoPkg *types.Package
 	for _, imp := range root.Types.Imports() {
-		if strings.HasSuffix(imp.Path(), "proto/gen/go/acmelib/v1") {
+		if strings.HasSuffix(imp.Path(), pkgSuffix) {
 			protoPkg = imp
 		}
 	}
 	if protoPkg == nil {
-		fmt.Fprintln(os.Stderr, "extract/protofields: schema package not imported by package acmelib")
+		fmt.Fprintln(os.Stderr, "extract/protofields: package "+pkgSuffix+" not imported by package acmelib")
 		os.Exit(1)
 	}
 	for _, name := range protoPkg.Scope().Names() {
@@ -112,10 +121,10 @@ func writeProtoFields(out string, root, dbc *packages.Package) {
 
 	for _, f := range root.Syntax {
 		base := filepath.Base(fset.Position(f.Pos()).Filename)
-		if base != "saver.go" && base != "loader.go" {
+		if base != writerFile && base != readerFile {
 			continue
 		}
-		isSaver := base == "saver.go"
+		isSaver := base == writerFile
 		written := map[*ast.SelectorExpr]bool{}
 		ast.Inspect(f, func(n ast.Node) bool {
 			switch x := n.(type) {
@@ -200,12 +209,12 @@ func writeProtoFields(out string, root, dbc *packages.Package) {
 	var b strings.Builder
 	b.WriteString("/- GENERATED by /verif/tools/extract from /repo — do not edit. -/\n")
 	b.WriteString("namespace Acme.Gen\n\n")
-	emit(&b, "schemaFields", "every exported field of every struct of the generated schema package proto/gen/go/acmelib/v1 (messages and oneof wrappers)", schema)
-	emit(&b, "savedFields", "(schema type, field) written in saver.go: assignment, append-assignment or composite-literal key", saved)
-	emit(&b, "loadedFields", "(schema type, field) read in loader.go: getter call, direct field read, oneof type switch / assertion", loaded)
+	emit(&b, schemaName, "every exported field of every struct of package "+pkgSuffix, schema)
+	emit(&b, savedName, "(type, field) written in "+writerFile+": assignment, append-assignment or composite-literal key", saved)
+	emit(&b, loadedName, "(type, field) read in "+readerFile+": getter call, direct field read, oneof type switch / assertion", loaded)
 	b.WriteString("end Acme.Gen\n")
 	_ = token.NoPos
-	if err := os.WriteFile(filepath.Join(out, "ProtoFields.lean"), []byte(b.String()), 0o644); err != nil {
+	if err := os.WriteFile(filepath.Join(out, outFile), []byte(b.String()), 0o644); err != nil {
 		panic(err)
 	}
 }
